@@ -455,7 +455,7 @@ func c15PosDiff(joined, alone ast.Stmt, shift int) (string, string) {
 var c15Keywords = []string{"func", "return", "var", "throw", "if", "for", "break", "continue", "in", "else", "new", "true", "false", "nil",
 	"module", "try", "catch", "finally", "switch", "case", "default", "go", "defer", "chan", "struct", "make", "type", "len", "delete", "close", "map", "import"}
 
-var c15Ops = []string{"!=", "!", "==", "= <-", "=", "??", "?", "++", "+=", "+", "--", "-=", "-", "*=", "*", "/=", "/", ">=", ">>", ">", "<-", "<=", "<<", "<",
+var c15Ops = []string{"!=", "!", "==", "= <-", "=<-", "=\t<-", "=\n<-", "=\r\n<-", "= \n\t<-", "=\n\n<-", "=", "??", "?", "++", "+=", "+", "--", "-=", "-", "*=", "*", "/=", "/", ">=", ">>", ">", "<-", "<=", "<<", "<",
 	"||", "|=", "|", "&&", "&=", "&", "...", ".", "(", ")", ":", ";", "%", "{", "}", "[", "]", ",", "^"}
 
 var c15Atoms = []string{"a", "b", "x1", "_", "é", "日本", "foo.bar", "1", "0", "07", "0x1f", "0b101", "1.5", "1e3", "1e+3", "2.", "9223372036854775808",
@@ -555,7 +555,16 @@ func c15Mutate(c *wk.Case, scripts []string) (string, string) {
 		}
 		i := c.Rng.Intn(len(toks))
 		var m string
-		switch c.Rng.Intn(11) {
+		switch c.Rng.Intn(12) {
+		case 11:
+			// every run of blanks may become any other white space (incl. none and line breaks): tokens
+			// the scanner joins over blanks ('=' ... '<-') and the line bookkeeping across them
+			m = "blank-variation"
+			for j, t := range toks {
+				if t != "" && strings.Trim(t, " \t") == "" && c.Rng.Intn(3) == 0 {
+					toks[j] = c15Pick(c, c15BlankVariants)
+				}
+			}
 		case 0:
 			m = "delete"
 			toks = append(toks[:i:i], toks[i+1:]...)
@@ -940,7 +949,11 @@ func (g *c15Gen) stmt(d, ind int) {
 		g.w(g.ident(), []string{".x", "[0]", "[\"k\"]", ".x.y"}[g.n(4)], " = ")
 		g.expr(d)
 	case 6:
-		g.w(g.ident(), " = <- ", g.ident())
+		// receive assignment: every target form, every kind of white space between '=' and '<-'
+		// (whether a line break is allowed there is the parser's business: a text that does not
+		// parse alone is judged as an error text and is not used for a pair)
+		g.w([]string{g.ident(), g.ident() + ", " + g.ident(), g.ident() + ".x", g.ident() + "[0]"}[g.n(4)])
+		g.w([]string{" ", " ", "", "\t"}[g.n(4)], "=", g.recvGap(), "<-", []string{" ", " ", "", "  "}[g.n(4)], g.ident())
 	case 7:
 		g.w([]string{"break", "continue", "return"}[g.n(3)])
 	case 8:
@@ -1579,7 +1592,8 @@ func init() {
 				Rule: "every input is parsed twice by parser.ParseSrc (panics observed, CPU/allocation budget per input) and judged: result is (tree,nil) or (_,*parser.Error) with 1<=line<=count('\\n')+1 and 1<=column<=len(line)+1; the two parses — separated by a parse of a fixed text of the opposite outcome — agree (dump with positions / error message+position), and so does a third parse of sampled texts at the end of the case, after all its other inputs. " +
 					"phase scan: deterministic scanner-bookkeeping families (unterminated strings/raw strings/comments at every offset, /*…*/ with runs of *, CR/LF mixes, non-ASCII letters, invalid UTF-8, NUL, brackets/blocks/unary/chains nested to 20000, 64 KB identifiers/numbers/strings/comments/runs, operators split by EOF, lone quotes, comments at EOF, all bracket strings of length<=4; type expressions: every type form (*T, []T, [][]T, chan T, map[..]T, map[T].., struct{..T}, struct over several lines, T.B) applied to every type form to depth 3 (depth 4 over one leaf) inside new()/make(), to depth 2 inside make(T,len[,cap]), typed array and map literals, make(type ..) and nested uses, plus every single-token deletion/duplication/junk insertion and every truncation of the depth<=2 types). " +
 					"phase types: PRNG type expressions (all forms, blanks/newlines where the grammar allows them, a dotted path after every form, depth<=5) at every use site of a type (new, make with 1-3 arguments, make(type ..), typed array/map literals, as element of pointer/slice/chan/map/struct types, nested in calls/operators/statements), one third with 1-2 token edits of the type (delete/duplicate/swap/replace/truncate/insert); the texts that parse are composed pairwise as in phase pairs. " +
-					"phase corpus: every script of the repository's corpus, every prefix and every suffix of it, CRLF/CR variants. phase fuzz: token soup, byte soup, grammar-generated programs, 1-3 mutations of a corpus script (delete/duplicate/swap/replace/truncate/bracket insert+remove/splice/insert byte/newline variation/junk). " +
+					"phase corpus: every script of the repository's corpus, every prefix and every suffix of it, CRLF/CR variants. phase fuzz: token soup, byte soup, grammar-generated programs, 1-3 mutations of a corpus script (delete/duplicate/swap/replace/truncate/bracket insert+remove/splice/insert byte/newline variation/blank-run variation/junk); generated programs and token soup spell the receive assignment with every target form and every white space (none, blanks, tab, LF, CRLF, several) between '=' and '<-'. " +
+					"phase recvassign: deterministic list - every target form x every gap between '=' and '<-' (none, blank, tab, LF, CRLF, CR, several line breaks with indentation, FF, VT, NBSP, NEL, U+2028, U+3000, comments with and without line breaks) x receive operands; each spelling alone, in " + strconv.Itoa(len(c15RecvErrCtx)) + " contexts that put a syntax/lexer error behind it (same line, next line, after an empty line, after a longer or shorter line, inside blocks, twice in a row) and at every truncation, judged by the error-position oracle; each spelling (bare and inside blocks/statement lists) that parses alone is composed with " + strconv.Itoa(len(c15RecvPartners)) + " partner texts in both orders as in phase edgepairs. " +
 					"phase edgepairs: complete square of hand-written valid edge texts and edge x corpus both ways; phase pairs: PRNG pairs (corpus, generated, mutated-but-valid, edge) — A, B parse alone => A+\"\\n\"+B parses to stmts(A)++stmts(B), compared statement by statement by reflective dump with B's lines shifted by count('\\n',A)+1. " +
 					"phase race (-race build): 8 goroutines parse the same text simultaneously and different texts interleaved; every result equals the sequential one. " +
 					"An evaluation is non-trivial when the text is not blank (pairs: both sides have >=1 statement); distinct = distinct text (pair).",
@@ -1588,12 +1602,14 @@ func init() {
 					"lines of the input = number of '\\n' + 1 (the empty line after a trailing newline counts); line length taken in bytes, the more permissive unit",
 					"what accompanies a non-nil error (partial tree), the error message and the Fatal flag are not judged; determinism compares outcome class, tree dump with positions, and error message+position",
 					"astx.Dump (reflection over all exported fields, positions via ast.Pos) is the tree identity",
+					"which white space may stand between the '=' and the '<-' of a receive assignment is not judged (the statement is silent): a spelling that fails is judged as an error text, one that parses alone must compose like every other text",
 				},
 				CrashIsViolation: true,
 				Phases: []fw.Phase{
 					{Name: "scan", Cases: nFam, Chunk: 1, TimeoutS: 900},
 					{Name: "corpus", Cases: nCorpus, Chunk: 50, TimeoutS: 900},
 					{Name: "edgepairs", Cases: len(c15EdgeTexts), Chunk: 8, TimeoutS: 900},
+					{Name: "recvassign", Cases: c15RecvCases(), Chunk: 16, Jobs: 4, MemMB: 3072, TimeoutS: 900},
 					{Name: "fuzz", Cases: nFuzz, Chunk: 25, TimeoutS: 900},
 					{Name: "pairs", Cases: nPairs, Chunk: 25, TimeoutS: 900},
 					{Name: "types", Cases: nTypes, Chunk: 25, TimeoutS: 900},
@@ -1622,6 +1638,8 @@ func init() {
 				c15RunPairs(c, 50)
 			case "types":
 				c15RunTypes(c)
+			case "recvassign":
+				c15RunRecvAssign(c) // c15_r5.go
 			case "race":
 				c15RunRace(c)
 			}
